@@ -539,7 +539,7 @@ fn c13_l2_anchor_init_slot63() {
     let g = img_anchor(&b).get_tick(63, 1);
     kani::cover!(g.is_ok(), "tick read back");
     assert!(matches!(&g, Ok(t) if same_tick(t, &expect_of(&u))), "get_tick returns the update");
-    assert!(img_anchor(&b).verif_tick_bitmap() == 1u128 << 63, "bitmap == {63}");
+    assert!(img_anchor(&b).verif_tick_bitmap() == 1u128 << 63, "bitmap == {{63}}");
     core::mem::forget(r);
     core::mem::forget(g);
 }
